@@ -207,7 +207,7 @@ def run(chk):
   for c in search.FAMILY:
     chk.require(stats[c + ':Crash'] > 0, f'vacuous: no crash/recover step replayed for {c}')
     chk.require(stats[c + ':Feedback'] > 0, f'vacuous: no feedback replayed for {c}')
-  for c in ('regevo', 'hill', 'hill2', 'neat', 'dd_regevo', 'dd_hill_auto') + (('nsga2',) if thorough else ()):
+  for c in ('regevo', 'hill', 'hill2', 'neat', 'sched', 'dd_regevo', 'dd_hill_auto') + (('nsga2',) if thorough else ()):
     chk.require(stats[c + ':evolve'] > 0, f'vacuous: no evolution step (scripted children) replayed for {c}')
   for form in search.HISTORY_FORMS:
     chk.require(stats['all:Crash:history=' + form] > 0, f'vacuous: recover() never received the history as a {form}')
